@@ -15,6 +15,8 @@ if [ "$PATCH" != "-" ]; then
   (cd "$S/repo" && git init -q . && git apply --whitespace=nowarn "$PATCH") || { echo "PATCH-DOES-NOT-APPLY"; exit 3; }
 fi
 rsync -a --exclude 'harness/target' --exclude 'replay' --exclude '.git' /verif/ "$S/verif/"
+# FROM_HEAD=1: tracked files as committed (other people's half-edited files are not our business either)
+[ -n "${FROM_HEAD:-}" ] && git -C /verif archive HEAD | tar -x -C "$S/verif"
 sed -i "s|path = \"/repo\"|path = \"$S/repo\"|" "$S/verif/harness/Cargo.toml"
 export YMQ_REPO="$S/repo"
 cp -r /verif/harness/target "$S/target" 2>/dev/null      # reuse compiled dependencies
